@@ -121,8 +121,14 @@ func (s *state) step(b *ssa.BasicBlock, ii int, in ssa.Instruction) bool {
 		}
 		s.safety("index", s.inRange(idx, ln), in)
 		s.vals[d] = Val{T: d.Type(), S: []string{x.S[0], m.offAdd(x.S[1], m.offMulConst(idx, sizes.Sizeof(et)))}}
-	case *ssa.Index: // array value
+	case *ssa.Index: // array value or string
 		x := s.get(d.X)
+		if _, isStr := d.X.Type().Underlying().(*types.Basic); isStr {
+			idx := s.idx64(d.Index)
+			s.safety("index", s.inRange(idx, x.S[2]), in)
+			s.vals[d] = s.loadAt(types.Typ[types.Uint8], x.S[0], m.offAdd(x.S[1], idx), nil)
+			break
+		}
 		arr := d.X.Type().Underlying().(*types.Array)
 		n := len(m.leaves(arr.Elem()))
 		iv := s.get(d.Index)
